@@ -71,7 +71,14 @@ for name, S in unit_system_registry.items():
     base = [{"dim": dim_vec(k), "expr": None if v is None else expr_wire(v)} for k, v in S.base_units.items()]
     out["systems"].append({"name": name, "key": str(name), "entries": entries, "base": base, "dims_attr": list(S._dims)})
 for (uname, dim), (todim, partner, factor) in em_conversions.items():
-    out["em"].append({"name": uname, "dim": dim_vec(dim), "todim": dim_vec(todim), "partner": partner, "factor": float(factor)})
+    syms = []
+    from unyt._parsing import parse_unyt_expr
+    from unyt._unit_lookup_table import unit_prefixes
+    for p in [""] + list(unit_prefixes):
+        e = parse_unyt_expr(p + partner)
+        if isinstance(e, sympy.Symbol):
+            syms.append([p, str(e)])
+    out["em"].append({"name": uname, "dim": dim_vec(dim), "todim": dim_vec(todim), "partner": partner, "factor": float(factor), "syms": syms})
 out["em_dims"] = [dim_vec(d) for d in em_conversion_dims]
 json.dump(out, sys.stdout)
 '''
@@ -117,14 +124,15 @@ def generate(X):
     X.write_if_changed(os.path.join(X.GEN, "Systems.lean"), text)
 
     em_rows = [
-        f"  ({X.lstr(r['name'])}, {ldim(r['dim'])}, {ldim(r['todim'])}, {X.lstr(r['partner'])}, {X.bits(r['factor'])})"
+        f"  ({X.lstr(r['name'])}, {ldim(r['dim'])}, {ldim(r['todim'])}, {X.lstr(r['partner'])}, {X.bits(r['factor'])},\n     [" + ", ".join(f"({X.lstr(a)}, {X.lstr(b)})" for a, b in r["syms"]) + "])"
         for r in data["em"]
     ]
     text = (
         X.header("UnytModel.Dim")
         + "namespace Unyt.Generated\n\n"
-        + "/-- `em_conversions`: (unit name, dimensions, partner dimensions, partner unit name, factor bits) -/\n"
-        + "def rawEm : List (String × Dim × Dim × String × Nat) := [\n"
+        + "/-- `em_conversions`: (unit name, dimensions, partner dimensions, partner unit name, factor bits,\n"
+        + "    prefix ↦ symbol of parse_unyt_expr(prefix + partner)) -/\n"
+        + "def rawEm : List (String × Dim × Dim × String × Nat × List (String × String)) := [\n"
         + ",\n".join(em_rows)
         + "\n]\n\n"
         + "/-- `em_conversion_dims` -/\n"
